@@ -224,7 +224,13 @@ func Check[C any](t *testing.T, baseChecks int, gen func(*rapid.T) C, run func(C
 	}
 	var firstFailAt time.Time
 	var lastFailCase, lastFailText string
+	// A run in which most cases end inconclusive (the harness could not even bring the code under test into the
+	// situation it wants to judge) says nothing; it is cut short instead of spending every case's time budget.
+	executed, inconclusive, bail := 0, 0, false
 	rapid.Check(t, func(rt *rapid.T) {
+		if bail {
+			return
+		}
 		c := gen(rt)
 		if !firstFailAt.IsZero() && time.Since(firstFailAt) > budget {
 			cj, _ := json.Marshal(c)
@@ -256,7 +262,20 @@ func Check[C any](t *testing.T, baseChecks int, gen func(*rapid.T) C, run func(C
 		mu.Lock()
 		st.absorb(ctx)
 		mu.Unlock()
+		executed++
+		for _, cl := range ctx.classes {
+			if strings.HasPrefix(cl, "inconclusive:") {
+				inconclusive++
+				break
+			}
+		}
+		if executed >= 40 && inconclusive*2 > executed {
+			bail = true
+		}
 	})
+	if bail {
+		t.Errorf("INCONCLUSIVE: %d of the first %d cases of %s ended inconclusive; the run was cut short", inconclusive, executed, name)
+	}
 	mu.Lock()
 	if st.Cases < st.Requested {
 		st.Short = true
